@@ -4,7 +4,7 @@ circuit/src/symbolic/compiler.rs SymbolicCompiler::compile_base (the work-stack 
 import os
 import re
 
-from vf.extract import extract_item
+from vf.extract import extract_item, ExtractError
 from vf.unit import Unit
 
 HERE = os.path.dirname(os.path.abspath(__file__))
@@ -330,54 +330,162 @@ pub proof fn lemma_arm_bin<CF>(t0: Seq<W<'_, CF>>, t3: Seq<W<'_, CF>>, ns: Seq<S
     # ---------------------------------------------------------------- alpha folding of the translated constraints (recursion/src/traits/air.rs)
     ef = u.extract('recursion/src/traits/air.rs', r'RecursiveAir<F, EF, LG> for A', 'eval_folded_circuit', 'eval_folded_circuit[folding slice]')
     ef.drop_prefix_before('let compiler = SymbolicCompiler::new(sels.row_selectors, &columns);',
-                          'prefix builds the AirLayout and calls p3 get_symbolic_constraints (opaque); it binds base_symbolic_constraints / extension_symbolic_constraints, which are parameters here')
+                          'prefix builds the AirLayout and calls p3 get_symbolic_constraints / get_constraint_layout (opaque); it binds base_symbolic_constraints / extension_symbolic_constraints / constraint_layout, which are parameters here')
+    # a counter of the dropped prefix that the slice reads becomes one more parameter (an arbitrary usize: the contract holds for every value of it)
+    extra_ = ''
+    for nm_, ty_, init_ in ef.prefix_locals_used(known=('base_symbolic_constraints', 'extension_symbolic_constraints', 'constraint_layout', 'compiler')):
+        if ty_ == 'usize' or init_.startswith('usize::from(') or init_.endswith('.len()'):
+            extra_ += f', {nm_}: usize'
+            ef.rewrites.append(('R13', f'prefix local `{nm_}` (a usize) read by the slice -> parameter of the slice, unconstrained', ''))
+        else:
+            raise ExtractError(f'eval_folded_circuit[folding slice] reads the prefix local `{nm_}` whose type the slice signature cannot state')
     ef.set_sig('R11', "fn eval_folded_circuit<CF: Copy, EF: Lift<CF>>(builder: &mut CircuitBuilder<EF>, sels: &RecursiveLagrangeSelectors, alpha: &Target, columns: ColumnsTargets<'_>, "
-                      "base_symbolic_constraints: &Vec<SymbolicExpression<CF>>, extension_symbolic_constraints: &Vec<ExtExpr>) -> Target", sliced=True)
-    ef.rewrite('R11', 'builder.define_const(EF::ZERO)', 'builder.define_const(EF::zero())')
-    ef.rewrite('R7', 'let mut base_cache = HashMap::new();', 'let mut base_cache: HashMap<NodeKey, ExprId> = HashMap::new();')
-    ef.rewrite('R7', 'let mut ext_cache = HashMap::new();', 'let mut ext_cache: HashMap<NodeKey, ExprId> = HashMap::new();')
-    ef.rewrite('R5', 'for s_c in &base_symbolic_constraints {', 'for bi_ in 0..base_symbolic_constraints.len() { let s_c = &base_symbolic_constraints[bi_];')
-    ef.rewrite('R5', 'for s_c in &extension_symbolic_constraints {', 'for ei_ in 0..extension_symbolic_constraints.len() { let s_c = &extension_symbolic_constraints[ei_]; proof { lemma_lv_same(&c0, builder, compiler); }')
+                      "base_symbolic_constraints: &Vec<SymbolicExpression<CF>>, extension_symbolic_constraints: &Vec<ExtExpr<CF>>, constraint_layout: &ConstraintLayout" + extra_ + ") -> Target", sliced=True)
+    ef.rewrite_re('R11', r'builder\.define_const\(EF::ZERO\)', 'builder.define_const(EF::zero())', min_count=1)
+    ef.rewrite_re('R7', r'let mut base_cache = HashMap::new\(\);', 'let mut base_cache: HashMap<NodeKey, ExprId> = HashMap::new();', min_count=1)
+    ef.rewrite_re('R7', r'let mut ext_cache = HashMap::new\(\);', 'let mut ext_cache: HashMap<NodeKey, ExprId> = HashMap::new(); proof { lemma_xcache_empty(builder, lv_of(compiler, &c0)); }', min_count=1)
+    ef.rewrite_re('R7', r'let mut (next_\w+) = 0;', r'let mut \1: usize = 0;', min_count=0)
+    # R6: `V.get(I) == Some(&X)` -> `(I < V.len() && V[I] == X)`
+    ef.rewrite_re('R6', r'([\w.]+)\.get\((\w+)\) == Some\(&(\w+)\)', r'(\2 < \1.len() && \1[\2] == \3)', min_count=0)
+    ef.rewrite_re('R6', r'(\w+) \+= 1;', r'\1 = \1 + 1;', min_count=0)
+    ef.rewrite_re('R5', r'for (\w+) in &(base_symbolic_constraints|extension_symbolic_constraints) \{', r'for i_\2 in 0..\2.len() { let \1 = &\2[i_\2];', min_count=0)
     ef.rewrite('R8', 'builder.pop_scope();', '')
-    ef.requires('leaves_allocated', 'old(builder).has(*alpha) && leaves_ok(old(builder), lv_of(SymbolicCompiler { row_selectors: sels.row_selectors, columns: &columns }, old(builder)), SymbolicCompiler { row_selectors: sels.row_selectors, columns: &columns })')
-    ef.requires('variables_in_range', 'forall|i: int| 0 <= i < base_symbolic_constraints@.len() ==> vars_in_range(SymbolicCompiler { row_selectors: sels.row_selectors, columns: &columns }, #[trigger] base_symbolic_constraints@[i])')
-    ef.ensures('native_folder_accumulation', '''({ let c0 = old(builder); let sc = SymbolicCompiler { row_selectors: sels.row_selectors, columns: &columns }; let lv = lv_of(sc, c0);
+    SC = 'SymbolicCompiler { row_selectors: sels.row_selectors, columns: &columns }'
+    ef.requires('leaves_allocated', f'old(builder).has(*alpha) && leaves_ok(old(builder), lv_of({SC}, old(builder)), {SC})')
+    ef.requires('variables_in_range', f'(forall|i: int| 0 <= i < base_symbolic_constraints@.len() ==> vars_in_range({SC}, #[trigger] base_symbolic_constraints@[i]))'
+                                      f' && (forall|i: int| 0 <= i < extension_symbolic_constraints@.len() ==> xvars_in_range({SC}, #[trigger] extension_symbolic_constraints@[i]))')
+    ef.requires('layout_is_the_emission_order_of_the_two_streams', 'layout_wf(constraint_layout, base_symbolic_constraints@.len() as int, extension_symbolic_constraints@.len() as int)')
+    ef.requires('constraint_count_fits', 'base_symbolic_constraints@.len() + extension_symbolic_constraints@.len() < usize::MAX')
+    ef.ensures('native_folder_accumulation_in_emission_order', f'''({{ let c0 = old(builder); let sc = {SC}; let lv = lv_of(sc, c0);
             final(builder).extends_pure(c0) && final(builder).has(ret)
-            && final(builder).val(ret) == fold_alpha(c0.val(*alpha), base_vals(lv, base_symbolic_constraints@).add(ext_vals(lv, extension_symbolic_constraints@))) })''')
-    ef.after('let compiler = SymbolicCompiler::new(sels.row_selectors, &columns);', 'let ghost c0 = *builder; let ghost lv = lv_of(compiler, &c0); let ghost a0 = builder.val(*alpha);')
-    ef.loop('for bi_ in 0..base_symbolic_constraints.len()', invariants=[
-        ('frame', 'builder.extends_pure(&c0) && builder.has(acc) && c0.has(*alpha) && a0 == c0.val(*alpha) && lv == lv_of(compiler, &c0) && leaves_ok(&c0, lv, compiler) && compiler.row_selectors == sels.row_selectors && *compiler.columns == columns'),
-        ('pre', 'forall|i: int| 0 <= i < base_symbolic_constraints@.len() ==> vars_in_range(compiler, #[trigger] base_symbolic_constraints@[i])'),
-        ('cache', 'cache_ok::<CF, EF>(builder, lv, base_cache@)'),
-        ('acc', 'builder.val(acc) == fold_alpha(a0, base_vals(lv, base_symbolic_constraints@).take(bi_ as int))'),
-    ])
-    ef.after('let s_c = &base_symbolic_constraints[bi_];', 'let ghost cb1 = *builder; proof { lemma_lv_same(&c0, builder, compiler); }')
-    ef.at_loop_end('for bi_ in 0..base_symbolic_constraints.len()', '''proof {
-            let bv = base_vals(lv, base_symbolic_constraints@);
-            assert(bv.take(bi_ as int + 1).drop_last() =~= bv.take(bi_ as int));
-            assert(bv.take(bi_ as int + 1).last() == bv[bi_ as int]);
-        }''')
-    ef.before('let mut ext_cache', 'let ghost bvs = base_vals(lv, base_symbolic_constraints@); proof { assert(bvs.take(bvs.len() as int) =~= bvs); assert(bvs.add(ext_vals(lv, extension_symbolic_constraints@).take(0)) =~= bvs); }')
-    ef.loop('for ei_ in 0..extension_symbolic_constraints.len()', invariants=[
-        ('frame', 'builder.extends_pure(&c0) && builder.has(acc) && c0.has(*alpha) && a0 == c0.val(*alpha) && lv == lv_of(compiler, &c0) && leaves_ok(&c0, lv, compiler) && bvs == base_vals(lv, base_symbolic_constraints@)'),
-        ('acc', 'builder.val(acc) == fold_alpha(a0, bvs.add(ext_vals(lv, extension_symbolic_constraints@).take(ei_ as int)))'),
-    ])
-    ef.at_loop_end('for ei_ in 0..extension_symbolic_constraints.len()', '''proof {
-            let ev = ext_vals(lv, extension_symbolic_constraints@);
-            assert(bvs.add(ev.take(ei_ as int + 1)).drop_last() =~= bvs.add(ev.take(ei_ as int)));
-            assert(bvs.add(ev.take(ei_ as int + 1)).last() == ev[ei_ as int]);
-        }''')
-    ef.bind_tail('res_', 'proof { let ev = ext_vals(lv, extension_symbolic_constraints@); assert(ev.take(ev.len() as int) =~= ev); }')
+            && exists|g: Seq<EF>| #[trigger] emission_order(g, constraint_layout, base_vals(lv, base_symbolic_constraints@), ext_vals(lv, extension_symbolic_constraints@))
+                    && final(builder).val(ret) == fold_alpha(c0.val(*alpha), g) }})''')
+    ef.after('let compiler = SymbolicCompiler::new(sels.row_selectors, &columns);',
+             'let ghost c0 = *builder; let ghost lv = lv_of(compiler, &c0); let ghost a0 = builder.val(*alpha); let ghost mut gb: Seq<EF> = Seq::empty();'
+             ' let ghost bix = constraint_layout.base_indices@; let ghost xix = constraint_layout.ext_indices@;'
+             ' let ghost bv = base_vals(lv, base_symbolic_constraints@); let ghost ev = ext_vals(lv, extension_symbolic_constraints@);')
+    LOOP = 'for idx in 0..num_constraints'
+    if LOOP in ef.body and 'next_base' in ef.body and 'next_ext' in ef.body:
+        lo = ef._loop_open(LOOP)
+        ef.body = ef.body[:lo + 1] + (' let ghost nb0 = next_base; let ghost ne0 = next_ext; let ghost gb0 = gb; let ghost cb1 = *builder; let ghost mut cb2 = *builder;'
+                                      ' proof { lemma_lv_same(&c0, builder, compiler); lemma_else_is_the_next_extension_constraint(constraint_layout, bv.len() as int, ev.len() as int, idx as int, nb0 as int, ne0 as int); }') + ef.body[lo + 1:]
+        ef.at_loop_end(LOOP, '''proof {
+                if next_base == nb0 + 1 { lemma_xcache_extends(&cb1, &cb2, lv, ext_cache@); }
+                lemma_cache_extends::<CF, EF>(&cb2, builder, lv, base_cache@); lemma_xcache_extends(&cb2, builder, lv, ext_cache@);
+                gb = gb0.push(builder.val(acc_c_));
+                assert(gb.drop_last() =~= gb0);
+                if next_base == nb0 + 1 {
+                    assert(bix[nb0 as int] == idx);
+                    assert(builder.val(acc_c_) == bv[nb0 as int]); // @@A:base_branch_compiles_the_next_base_constraint
+                } else {
+                    assert(xix[ne0 as int] == idx);
+                    assert(builder.val(acc_c_) == ev[ne0 as int]); // @@A:else_branch_compiles_the_next_extension_constraint
+                }
+                assert forall|j: int| 0 <= j < next_base implies gb[#[trigger] bix[j] as int] == bv[j] by { if j < nb0 { assert(gb0[bix[j] as int] == bv[j]); } }
+                assert forall|j: int| 0 <= j < next_ext implies gb[#[trigger] xix[j] as int] == ev[j] by { if j < ne0 { assert(gb0[xix[j] as int] == ev[j]); } }
+            }''')
+        # name the folded term (the value pushed on the ghost sequence): `acc = builder.mul_add(acc, *alpha, X);` inside the loop
+        m_ = re.search(r'acc = builder\.mul_add\(acc, \*alpha, (\w+)\);', ef.body)
+        if m_:
+            ef.body = ef.body.replace('acc_c_', m_.group(1))
+            ef.body = ef.body.replace(m_.group(0), 'proof { cb2 = *builder; } ' + m_.group(0), 1)
+        ef.loop(LOOP, invariants=[
+            ('frame', 'builder.extends_pure(&c0) && builder.has(acc) && c0.has(*alpha) && a0 == c0.val(*alpha) && lv == lv_of(compiler, &c0) && leaves_ok(&c0, lv, compiler) && compiler.row_selectors == sels.row_selectors && *compiler.columns == columns'
+                      ' && bix == constraint_layout.base_indices@ && xix == constraint_layout.ext_indices@ && bv == base_vals(lv, base_symbolic_constraints@) && ev == ext_vals(lv, extension_symbolic_constraints@)'
+                      ' && num_constraints == bv.len() + ev.len() && layout_wf(constraint_layout, bv.len() as int, ev.len() as int)'),
+            ('pre', '(forall|i: int| 0 <= i < base_symbolic_constraints@.len() ==> vars_in_range(compiler, #[trigger] base_symbolic_constraints@[i]))'
+                    ' && (forall|i: int| 0 <= i < extension_symbolic_constraints@.len() ==> xvars_in_range(compiler, #[trigger] extension_symbolic_constraints@[i]))'),
+            ('caches', 'cache_ok::<CF, EF>(builder, lv, base_cache@) && xcache_ok::<EF>(builder, lv, ext_cache@)'),
+            ('cursors_count_the_constraints_emitted_before_idx', 'cursors_ok(constraint_layout, bv.len() as int, ev.len() as int, idx as int, next_base as int, next_ext as int)'),
+            ('folded_terms_so_far_are_in_emission_order', 'gb.len() == idx && (forall|j: int| 0 <= j < next_base ==> gb[#[trigger] bix[j] as int] == bv[j]) && (forall|j: int| 0 <= j < next_ext ==> gb[#[trigger] xix[j] as int] == ev[j])'),
+            ('acc', 'builder.val(acc) == fold_alpha(a0, gb)'),
+        ])
+    ef.bind_tail('res_', 'proof { assert(emission_order(gb, constraint_layout, bv, ev)); }')
     u.text('''verus! {
 pub struct RecursiveLagrangeSelectors { pub row_selectors: RowSelectorsTargets, pub inv_vanishing: Target }
-pub struct ExtExpr { pub _p: () }                                                         // SymbolicExpressionExt: opaque here
-pub uninterp spec fn den_ext<F: Field>(lv: LeafVals<F>, e: ExtExpr) -> F;
-/// native constraint folder:  acc = acc * alpha + c   over base constraints first, then extension constraints
+pub struct ExtExpr<CF> { pub _p: core::marker::PhantomData<CF> }                                                         // SymbolicExpressionExt: opaque here
+pub uninterp spec fn den_ext<CF, F: Field>(lv: LeafVals<F>, e: ExtExpr<CF>) -> F;
+/// native constraint folder:  acc = acc * alpha + c   over the constraints in the order the AIR emits them (base and extension alike)
 pub open spec fn fold_alpha<F: Field>(alpha: F, cs: Seq<F>) -> F decreases cs.len() {
     if cs.len() == 0 { F::fzero() } else { fold_alpha(alpha, cs.drop_last()).fmul(alpha).fadd(cs.last()) }
 }
 pub open spec fn base_vals<CF, F: Field>(lv: LeafVals<F>, cs: Seq<SymbolicExpression<CF>>) -> Seq<F> { Seq::new(cs.len(), |i: int| den(lv, cs[i])) }
-pub open spec fn ext_vals<F: Field>(lv: LeafVals<F>, cs: Seq<ExtExpr>) -> Seq<F> { Seq::new(cs.len(), |i: int| den_ext(lv, cs[i])) }
+pub open spec fn ext_vals<CF, F: Field>(lv: LeafVals<F>, cs: Seq<ExtExpr<CF>>) -> Seq<F> { Seq::new(cs.len(), |i: int| den_ext(lv, cs[i])) }
+/// p3_air::symbolic::ConstraintLayout: global indices of the base / extension constraints, each in emission order
+pub struct ConstraintLayout { pub base_indices: Vec<usize>, pub ext_indices: Vec<usize> }
+/// ASSUMED of the dependency (p3 `constraint_layout()`): the two index lists are increasing, disjoint, and together are exactly 0..nb+ne
+pub open spec fn layout_wf(l: &ConstraintLayout, nb: int, ne: int) -> bool {
+    let b = l.base_indices@; let x = l.ext_indices@;
+    b.len() == nb && x.len() == ne
+    && (forall|i: int, j: int| 0 <= i < j < nb ==> b[i] < b[j]) && (forall|i: int, j: int| 0 <= i < j < ne ==> x[i] < x[j])
+    && (forall|i: int, j: int| 0 <= i < nb && 0 <= j < ne ==> b[i] != x[j])
+    && (forall|i: int| 0 <= i < nb ==> #[trigger] b[i] < nb + ne) && (forall|j: int| 0 <= j < ne ==> #[trigger] x[j] < nb + ne)
+    && (forall|g: int| 0 <= g < nb + ne ==> #[trigger] covered(l, nb, ne, g))
+}
+pub open spec fn covered(l: &ConstraintLayout, nb: int, ne: int, g: int) -> bool {
+    (exists|i: int| 0 <= i < nb && #[trigger] l.base_indices@[i] == g) || (exists|j: int| 0 <= j < ne && #[trigger] l.ext_indices@[j] == g)
+}
+/// g is THE global constraint sequence of the native folder: the j-th base constraint sits at its global index, and so does the j-th extension constraint
+pub open spec fn emission_order<F: Field>(g: Seq<F>, l: &ConstraintLayout, bv: Seq<F>, ev: Seq<F>) -> bool {
+    g.len() == bv.len() + ev.len()
+    && (forall|j: int| 0 <= j < bv.len() ==> g[#[trigger] l.base_indices@[j] as int] == bv[j])
+    && (forall|j: int| 0 <= j < ev.len() ==> g[#[trigger] l.ext_indices@[j] as int] == ev[j])
+}
+/// cursor state before global index idx: nbx base and nex extension constraints were emitted earlier
+pub open spec fn cursors_ok(l: &ConstraintLayout, nb: int, ne: int, idx: int, nbx: int, nex: int) -> bool {
+    let b = l.base_indices@; let x = l.ext_indices@;
+    0 <= nbx <= nb && 0 <= nex <= ne && nbx + nex == idx
+    && (forall|j: int| 0 <= j < nbx ==> #[trigger] b[j] < idx) && (nbx < nb ==> b[nbx] >= idx)
+    && (forall|j: int| 0 <= j < nex ==> #[trigger] x[j] < idx) && (nex < ne ==> x[nex] >= idx)
+}
+/// the global sequence is unique (so `exists g` in the postcondition names the native folder's sequence)
+pub proof fn lemma_emission_order_unique<F: Field>(g1: Seq<F>, g2: Seq<F>, l: &ConstraintLayout, bv: Seq<F>, ev: Seq<F>)
+    requires layout_wf(l, bv.len() as int, ev.len() as int), emission_order(g1, l, bv, ev), emission_order(g2, l, bv, ev)
+    ensures g1 == g2
+{
+    assert forall|g: int| 0 <= g < g1.len() implies g1[g] == g2[g] by {
+        assert(covered(l, bv.len() as int, ev.len() as int, g));
+        if exists|i: int| 0 <= i < bv.len() && #[trigger] l.base_indices@[i] == g {
+            let i = choose|i: int| 0 <= i < bv.len() && #[trigger] l.base_indices@[i] == g; assert(g1[l.base_indices@[i] as int] == bv[i]); assert(g2[l.base_indices@[i] as int] == bv[i]);
+        } else {
+            let j = choose|j: int| 0 <= j < ev.len() && #[trigger] l.ext_indices@[j] == g; assert(g1[l.ext_indices@[j] as int] == ev[j]); assert(g2[l.ext_indices@[j] as int] == ev[j]);
+        }
+    }
+    assert(g1 =~= g2);
+}
+/// at global index idx: either the next base constraint sits there, or the next extension constraint does; and the cursors advance accordingly
+pub proof fn lemma_else_is_the_next_extension_constraint(l: &ConstraintLayout, nb: int, ne: int, idx: int, nbx: int, nex: int)
+    requires layout_wf(l, nb, ne), cursors_ok(l, nb, ne, idx, nbx, nex), 0 <= idx < nb + ne
+    ensures
+        (nbx < nb && l.base_indices@[nbx] == idx) ==> cursors_ok(l, nb, ne, idx + 1, nbx + 1, nex),
+        !(nbx < nb && l.base_indices@[nbx] == idx) ==> nex < ne && l.ext_indices@[nex] == idx && cursors_ok(l, nb, ne, idx + 1, nbx, nex + 1),
+{
+    let b = l.base_indices@; let x = l.ext_indices@;
+    if nbx < nb && b[nbx] == idx {
+        if nbx + 1 < nb { assert(b[nbx] < b[nbx + 1]); }
+        if nex < ne { assert(b[nbx] != x[nex]); }
+        assert forall|j: int| 0 <= j < nbx + 1 implies #[trigger] b[j] < idx + 1 by { if j < nbx { assert(b[j] < idx); } }
+    } else {
+        assert(covered(l, nb, ne, idx));
+        if exists|i: int| 0 <= i < nb && #[trigger] b[i] == idx {
+            let i = choose|i: int| 0 <= i < nb && #[trigger] b[i] == idx;
+            if i < nbx { assert(b[i] < idx); } else if i > nbx { assert(b[nbx] < b[i]); }
+            assert(false);
+        }
+        let j = choose|j: int| 0 <= j < ne && #[trigger] x[j] == idx;
+        if j < nex { assert(x[j] < idx); } else if j > nex { assert(x[nex] < x[j]); }
+        assert(j == nex);
+        if nex + 1 < ne { assert(x[nex] < x[nex + 1]); }
+        if nbx < nb { assert(b[nbx] != x[nex]); }
+        assert forall|k: int| 0 <= k < nex + 1 implies #[trigger] x[k] < idx + 1 by { if k < nex { assert(x[k] < idx); } }
+    }
+}
+/// extension-side cache and variable-range predicates: opaque here, proved for the real compile_ext in unit symx (caches_sound / caches_stay_sound)
+pub uninterp spec fn xcache_ok<F: Field>(cb: &CircuitBuilder<F>, lv: LeafVals<F>, cache: Map<NodeKey, ExprId>) -> bool;
+pub uninterp spec fn xvars_in_range<CF>(sc: SymbolicCompiler<'_>, e: ExtExpr<CF>) -> bool;
+#[verifier::external_body] pub proof fn lemma_xcache_empty<F: Field>(cb: &CircuitBuilder<F>, lv: LeafVals<F>) ensures xcache_ok::<F>(cb, lv, Map::empty()) { }
+#[verifier::external_body] pub proof fn lemma_xcache_extends<F: Field>(a: &CircuitBuilder<F>, b: &CircuitBuilder<F>, lv: LeafVals<F>, c: Map<NodeKey, ExprId>) requires b.extends(a), xcache_ok::<F>(a, lv, c) ensures xcache_ok::<F>(b, lv, c) { }
+pub proof fn lemma_cache_extends<CF, F: Field>(a: &CircuitBuilder<F>, b: &CircuitBuilder<F>, lv: LeafVals<F>, c: Map<NodeKey, ExprId>) requires b.extends(a), cache_ok::<CF, F>(a, lv, c) ensures cache_ok::<CF, F>(b, lv, c) { }
 pub proof fn lemma_leaves_extend<F: Field>(a: &CircuitBuilder<F>, b: &CircuitBuilder<F>, sc: SymbolicCompiler<'_>)
     requires b.extends(a), leaves_ok(a, lv_of(sc, a), sc)
     ensures leaves_ok(b, lv_of(sc, b), sc), lv_of(sc, b).first == lv_of(sc, a).first, lv_of(sc, b).last == lv_of(sc, a).last, lv_of(sc, b).trans == lv_of(sc, a).trans
@@ -399,8 +507,10 @@ impl<'a> SymbolicCompiler<'a> {
     pub fn new(row_selectors: RowSelectorsTargets, columns: &'a ColumnsTargets<'a>) -> (r: Self) ensures r.row_selectors == row_selectors, r.columns == columns { SymbolicCompiler { row_selectors, columns } }
     /// ASSUMED callee contract (same shape as the one proved for compile_base)
     #[verifier::external_body]
-    pub fn compile_ext<EF: Field>(&self, expr: &ExtExpr, circuit: &mut CircuitBuilder<EF>, base_cache: &mut HashMap<NodeKey, ExprId>, cache: &mut HashMap<NodeKey, ExprId>) -> (r: ExprId)
-        ensures final(circuit).extends_pure(old(circuit)), final(circuit).has(r), final(circuit).val(r) == den_ext(lv_of(*self, old(circuit)), *expr)
+    pub fn compile_ext<CF, EF: Field>(&self, expr: &ExtExpr<CF>, circuit: &mut CircuitBuilder<EF>, base_cache: &mut HashMap<NodeKey, ExprId>, cache: &mut HashMap<NodeKey, ExprId>) -> (r: ExprId)
+        requires xvars_in_range(*self, *expr), xcache_ok::<EF>(old(circuit), lv_of(*self, old(circuit)), old(cache)@), cache_ok::<CF, EF>(old(circuit), lv_of(*self, old(circuit)), old(base_cache)@)
+        ensures final(circuit).extends_pure(old(circuit)), final(circuit).has(r), final(circuit).val(r) == den_ext(lv_of(*self, old(circuit)), *expr),
+                xcache_ok::<EF>(final(circuit), lv_of(*self, old(circuit)), final(cache)@), cache_ok::<CF, EF>(final(circuit), lv_of(*self, old(circuit)), final(base_cache)@)
     { unimplemented!() }
 }''')
     u.emit(ef)
